@@ -1,11 +1,13 @@
 #!/bin/bash
-# usage: trymut.sh <patch.diff> <ID> [quick|thorough]   -- apply a seeded change to /repo, run the check, undo
+# usage: trymut.sh <patch.diff> <ID> [quick|thorough]
+# applies a seeded change to a throw-away worktree of /repo (never to /repo itself), runs the check against it, removes the worktree
 set -u
-patch=$1; id=$2; tier=${3:-quick}
-cd /repo || exit 2
-if [ -n "$(git status --porcelain)" ]; then echo "repo dirty"; exit 2; fi
-git apply "$patch" || { echo "patch does not apply"; exit 2; }
-( cd /verif && ./check "$id" "$tier" ); rc=$?
-git -C /repo checkout -- . ; git -C /repo clean -fdq
+patch=$(readlink -f "$1"); id=$2; tier=${3:-quick}
+wt=/tmp/wt/mut-$$-$RANDOM
+git -C /repo worktree add --detach "$wt" HEAD >/dev/null 2>&1 || { echo "worktree failed"; exit 2; }
+if ! git -C "$wt" apply "$patch"; then echo "patch does not apply"; git -C /repo worktree remove --force "$wt"; exit 2; fi
+( cd /verif && VERIF_REPO="$wt" ./check "$id" "$tier" ); rc=$?
+git -C /repo worktree remove --force "$wt" >/dev/null 2>&1
+rm -rf "/verif/work/alt-$(printf %s "$wt" | sha1sum | cut -c1-10)"
 echo "trymut rc=$rc"
 exit $rc
